@@ -492,4 +492,65 @@ class MixedImports(object):
         return 'ok', vs, 2
 
 
-FAMILIES = [Imports(), Equivalence(), TypeIndex(), RenamedUses(), MixedImports()]
+class ForeignTrapVariables(object):
+    name = 'trap-variables-from-another-module'
+    describe = ('an SMIv1 TRAP-TYPE whose VARIABLES mix local and imported objects, plain and hyphenated names, in every order of '
+                'three (and the same as INDEX of a row): the references (module, object) equal those of the NOTIFICATION-TYPE '
+                'OBJECTS of the transliteration; JSON and the setObjects() call of the executed pysnmp module')
+
+    NAMES = [('A-MIB', 'acme-port-index'), ('A-MIB', 'acmeErrors'), ('T', 'box-load'), ('T', 'boxTemp')]
+
+    def blocks(self, tier):
+        return [{}]
+
+    def cases(self, block, tier):
+        for combo in itertools.permutations(range(len(self.NAMES)), 3):
+            yield {'vars': list(combo)}
+
+    def run_case(self, case):
+        amib = ('A-MIB DEFINITIONS ::= BEGIN\nIMPORTS enterprises FROM RFC1155-SMI OBJECT-TYPE FROM RFC-1212;\n'
+                'acme OBJECT IDENTIFIER ::= { enterprises 4343 }\n'
+                'acme-port-index OBJECT-TYPE SYNTAX INTEGER ACCESS read-only STATUS mandatory DESCRIPTION "d" ::= { acme 1 }\n'
+                'acmeErrors OBJECT-TYPE SYNTAX INTEGER ACCESS read-only STATUS mandatory DESCRIPTION "d" ::= { acme 2 }\nEND\n')
+        names = [self.NAMES[i] for i in case['vars']]
+        foreign = sorted(set(n for m, n in names if m == 'A-MIB'))
+        local = ''.join('%s OBJECT-TYPE SYNTAX INTEGER %s read-only STATUS %s DESCRIPTION "d" ::= { acme %d }\n' % (
+            n, '%(acc)s', '%(st)s', 10 + i) for i, (m, n) in enumerate(self.NAMES) if m == 'T')
+        varlist = ', '.join(n for m, n in names)
+        v1 = ('V1TEST-MIB DEFINITIONS ::= BEGIN\nIMPORTS OBJECT-TYPE FROM RFC-1212 TRAP-TYPE FROM RFC-1215 acme%s FROM A-MIB;\n' % (
+            ''.join(', ' + f for f in foreign)) + local % {'acc': 'ACCESS', 'st': 'mandatory'} +
+              'theTrap TRAP-TYPE ENTERPRISE acme VARIABLES { %s } DESCRIPTION "d" ::= 5\nEND\n' % varlist)
+        v2 = ('V2TEST-MIB DEFINITIONS ::= BEGIN\nIMPORTS OBJECT-TYPE, NOTIFICATION-TYPE FROM SNMPv2-SMI acme%s FROM A-MIB;\n' % (
+            ''.join(', ' + f for f in foreign)) + local % {'acc': 'MAX-ACCESS', 'st': 'current'} +
+              'theTrap NOTIFICATION-TYPE OBJECTS { %s } STATUS current DESCRIPTION "d" ::= { acme 0 5 }\nEND\n' % varlist)
+        sig = 'C16|foreign-trap-variables'
+        vs = []
+        out = []
+        for backend in ('json', 'pysnmp'):
+            r1, w1 = compile_v({'V1TEST-MIB': v1, 'A-MIB': amib}, ['V1TEST-MIB'], backend)
+            r2, w2 = compile_v({'V2TEST-MIB': v2, 'A-MIB': amib}, ['V2TEST-MIB'], backend)
+            if r2.get('V2TEST-MIB') != 'compiled':
+                raise core.InternalError('the SMIv2 transliteration does not compile: %r\n%s' % (getattr(r2.get('V2TEST-MIB'), 'error', None), v2))
+            if r1.get('V1TEST-MIB') != 'compiled':
+                vs.append(('%s|%s|not-compiled' % (sig, backend), '%r\n%s' % (getattr(r1.get('V1TEST-MIB'), 'error', None), v1)))
+                continue
+            if backend == 'json':
+                o1 = json.loads(w1['V1TEST-MIB']).get('theTrap', {}).get('objects')
+                o2 = json.loads(w2['V2TEST-MIB']).get('theTrap', {}).get('objects')
+                fix = lambda objs: [(o.get('module', '').replace('V2TEST', 'V1TEST'), o.get('object')) for o in objs or []]
+                if fix(o1) != fix(o2):
+                    vs.append(('%s|json|references-differ' % sig, 'SMIv1 %r\ntransliteration %r\n%s' % (o1, o2, v1)))
+                out.append(repr(fix(o1)))
+            else:
+                import re
+                def refs(text, mod):
+                    m = re.search(r'theTrap\.setObjects\((.*?)\)\s*\n\s*(?:\)|if|theTrap|$)', text, re.S)
+                    body = m.group(1) if m else ''
+                    return [(a.replace(mod, 'X'), b) for a, b in re.findall(r'\("([^"]+)",\s*"([^"]+)"\)', body)]
+                a, b = refs(w1['V1TEST-MIB'], 'V1TEST-MIB'), refs(w2['V2TEST-MIB'], 'V2TEST-MIB')
+                if a != b or not a:
+                    vs.append(('%s|pysnmp|references-differ' % sig, 'SMIv1 %r\ntransliteration %r' % (a, b)))
+        return repr(out), vs, 4
+
+
+FAMILIES = [Imports(), Equivalence(), TypeIndex(), RenamedUses(), MixedImports(), ForeignTrapVariables()]
